@@ -169,6 +169,10 @@ AcceptCodec(e) ==
      /\ ZEq(ZJ(e.sb), Wrap(a, e.A))                               \* holding the raw integer
      /\ e.wserde = e.serde
      /\ ValIs(e.serde_rt, a) /\ ValIs(e.serde_seq, a)
+     \* Wrapping<F> reads back what it wrote; malformed documents (duplicate / unknown / missing field, wrong shape) must not
+     \* panic -- whether they are refused is not part of C10 -- and a document with one "bits" and a foreign key, if accepted, is a
+     /\ (("wserde_rt" \in DOMAIN e) => /\ ValIs(e.wserde_rt, a)
+                                       /\ \A i \in 1..Len(e.serde_bad) : ~IsPanic(e.serde_bad[i]))
 
 (* ------------------------------ C08 ------------------------------------ *)
 AcceptParse(e, P) ==
